@@ -5,7 +5,10 @@
 // "verif" build tag; without the tag every function is an empty, inlined no-op.
 package verifhook
 
-import "sync"
+import (
+	"sync"
+	"time"
+)
 
 // Enabled reports whether a hook is installed.
 func Enabled() bool { return false }
@@ -30,3 +33,6 @@ func AtMutex(point string, mu *sync.Mutex) {}
 
 // Log records an observation without yielding.
 func Log(point string, a, b int64, s string) {}
+
+// Ticker hands the report loop's ticker to the harness, which drives it.
+func Ticker(t *time.Ticker) {}
